@@ -149,6 +149,9 @@ def run(ctx):
                  "X8": "split index interior ([1, L-2]) and == argmax of the interior distances (int(L/2) under the zero-distance guard)"}.items():
         res.rule(k, v)
     rm.check_distance_dispatch(rc, "X8", "rdp.rdp_fixed")
+    from . import c17
+    from .common import borrow
+    borrow(rc, "X8", c17._sec_shortest, c17._sec_perp)        # the distance primitives the split (and the triangle / area scores) are computed with
     members = rc.repo.mod("rdp").classes["Order"].enum_members
     if sorted(members) != sorted(ORDERS):
         res.error(f"X6: rdp.Order has members {members}; the rule table knows {ORDERS}")
